@@ -118,13 +118,8 @@ pub(crate) fn create_case_from(prop: &str, src: ParserType, fmt: ParserType, esc
         ParserType::Markdown => MarkdownTestCaseGenerator::default().generate_testcases(&[&outcome]),
         ParserType::Cram => CramTestCaseGenerator::default().generate_testcases(&[&outcome]),
     });
-    let mut crashed = false;
+    let crashed = false;
     let text = match generated {
-        // `expression_lines[0]` on an empty command (not an output of the property's quantifier): modelled as `crash`
-        Err(_) if cmd.is_empty() => {
-            crashed = true;
-            None
-        }
         Err(p) => {
             fails.push(("C09:generator-panic".to_string(), p));
             None
@@ -547,7 +542,6 @@ fn update_generate_case(prop: &str, esc: Escaper, cmd: &str, exps: &[&str], expe
     let text = c10_generated_text(&outcome);
     let impl_out = match &text {
         Some(t) => hex(t.as_bytes()),
-        None if cmd.is_empty() => "crash".to_string(),
         None => "error".to_string(),
     };
     // direct oracle (the property): the document written for this outcome reads back as one test with the same
@@ -614,10 +608,10 @@ fn update_generate_case(prop: &str, esc: Escaper, cmd: &str, exps: &[&str], expe
 }
 
 /// expectations of every quantifier and of several kinds, chosen to (mis)match the lines of `UPD_OUT`
-const UPD_EXP: [&str; 6] = ["foo", "bar", "ba* (glob)", "foo (?)", "b* (glob+)", "f.* (regex*)"];
+const UPD_EXP: [&str; 7] = ["foo", "bar", "ba* (glob)", "foo (?)", "b* (glob+)", "f.* (regex*)", "> x"];
 /// output lines: matched by one / several / none of `UPD_EXP`; two that look like test syntax
-const UPD_OUT: [&[u8]; 5] = [b"foo", b"bar", b"baz", b"[1]", b"$ x\x01"];
-const UPD_EXP_MORE: [&str; 14] = ["foo", "bar", "baz", "ba* (glob)", "foo (?)", "b* (glob+)", "f.* (regex*)", "foo (no-eol)", "a\\tb (escaped)", "[1] (equal)", "* (glob*)", "x\\x01 (escaped)", "foo (glob) (equal)", "  "];
+const UPD_OUT: [&[u8]; 6] = [b"foo", b"bar", b"baz", b"[1]", b"$ x\x01", b"> x"];
+const UPD_EXP_MORE: [&str; 16] = ["> x", "> * (glob)", "foo", "bar", "baz", "ba* (glob)", "foo (?)", "b* (glob+)", "f.* (regex*)", "foo (no-eol)", "a\\tb (escaped)", "[1] (equal)", "* (glob*)", "x\\x01 (escaped)", "foo (glob) (equal)", "  "];
 
 fn update_generate_run(ctx: &Ctx, prop: &str) {
     let seed = ctx.seed;
@@ -699,7 +693,7 @@ fn update_generate_run(ctx: &Ctx, prop: &str) {
             }
         }
         let esc = if rng.chance(1, 2) { Escaper::Unicode } else { Escaper::Ascii };
-        let cmd = *rng.pick(&["the command", "the command", "multi\nline cmd", "caf\u{e9} 'a  b'", ""]);
+        let cmd = *rng.pick(&["the command", "the command", "multi\nline cmd", "caf\u{e9} 'a  b'", "", "ends in a line feed\n", "two\n\n"]);
         let (expected, code) = *rng.pick(&[(None, 0), (None, 0), (None, 0), (Some(3), 3), (None, 2), (Some(2), 0), (Some(1), 255)]);
         update_generate_case(prop, esc, cmd, &exps, expected, &out, code, rng.chance(1, 6), "update-generate-random")
     });
@@ -817,8 +811,8 @@ pub fn run(ctx: &Ctx, prop: &str) {
         let src = if !converted { fmt } else if fmt == ParserType::Markdown { ParserType::Cram } else { ParserType::Markdown };
         Some(create_case_from(prop, src, fmt, esc, "the command", &out, if second { 3 } else { 0 }, "create-fragments"))
     });
-    ctx.run_stream("create-commands", 6, true, |idx| {
-        let cmd = ["", "a\n\nb", "caf\u{e9}\n\u{e9}t\u{e9}", "x\ny", "$ y", "> z\n> w"][idx as usize];
+    ctx.run_stream("create-commands", 9, true, |idx| {
+        let cmd = ["", "a\n\nb", "caf\u{e9}\n\u{e9}t\u{e9}", "x\ny", "$ y", "> z\n> w", "a\n", "a\n\n", "\n"][idx as usize];
         Some(create_case(prop, ParserType::Markdown, Escaper::Unicode, cmd, b"out\n", 0, "create-commands"))
     });
     ctx.run_stream("update-documents-random", if ctx.thorough { 100_000 } else { 6_000 }, false, |idx| {
